@@ -2,9 +2,13 @@
   C06 — each error locates itself truthfully in the instance and in the schema.
   Property theorems only; helper lemmas live in JS/Proofs/Located.lean.
   Model: `eval` and every applicator's `descendG … path schemaPath`, `stamp` (JS.Eval, JS.Keywords).
-  Specification: `Spec.instLocated`, `Spec.schemaLocated` (JS.Spec.Located) over `Spec.ptrGet`.
+  Specification: `Spec.instLocated`, `Spec.schemaLocated` (JS.Spec.Located) over `Spec.ptrGet`;
+  with references `Spec.schemaLocatedR` (JS.Spec.LocatedRef) over `Spec.navR`, helper lemmas in
+  JS/Proofs/LocatedRef.lean.
 -/
 import JS.Proofs.Located
+import JS.Proofs.LocatedRef
+import JS.Props.C15
 namespace JS.Props.C06
 open JS
 
@@ -56,6 +60,87 @@ theorem schema_located_reffree (env : Env) (impl : FmtImpl) (d : Draft) (fc : Op
     (hws : Spec.WF s = true) (hnr : Spec.noRef s = true) (b : Option Nat) (st : RState) :
     ∀ e ∈ (eval env impl (d.cfg fc) fuel i s b st).errs, Spec.schemaLocated s [] e = true :=
   Located.schema_eval env impl d fc fuel i s hws hnr b st
+
+/-- **Schema side, schemas with references.** From every resolver state that lives in a
+    well-formed world, every error — at top level and throughout its context — locates itself
+    truthfully in `s`: the keyword is the last element of its schema path, the recorded subschema
+    holds the recorded value, and following the absolute schema path from the root, HOPPING through
+    the reference objects on the way (`Spec.navR`: a reference contributes no path element, the walk
+    continues in the designated schema), reaches that value; an error of a `false` schema ends at
+    the `false`, possibly designated by a final reference. -/
+theorem schema_located_refs (env : Env) (hf : Props.C15.StableFetch env) (impl : FmtImpl) (d : Draft)
+    (fc : Option FormatChecker) (fuel : Nat) (i s : Json) (hws : Spec.WF s = true)
+    (base : List (Str × Json)) (hw : Spec.WorldOK env base)
+    (b : Option Nat) (st : RState) (hst : Props.C15.SameWorld env base st st) :
+    ∀ e ∈ (eval env impl (d.cfg fc) fuel i s b st).errs,
+      Spec.schemaLocatedR env d base st.top s [] e :=
+  LocatedRef.schemaR_eval hf hw impl fc fuel i s st.scopes b st hws
+    ⟨(Props.C15.sameWorld_iff.1 hst).left, rfl⟩
+
+/-- non-vacuity: `{"definitions": {"a": {"type": "string"}}, "properties": {"x": {"$ref":
+    "#/definitions/a"}}}` (Draft 7) stored under the base URI `""` of a fresh resolver, instance
+    `{"x": 1}`: the hypotheses hold, the run yields one error — keyword value `"string"`, schema path
+    `properties/x/type`, which names neither the reference nor `definitions/a` — and the theorem
+    locates it: the walk from the root hops through the reference to `"string"`. -/
+example :
+    ∃ e ∈ (eval LocatedRef.Ex.env LocatedRef.Ex.impl (Draft.d7.cfg none) 3 LocatedRef.Ex.inst
+        LocatedRef.Ex.schema none (LocatedRef.Ex.st LocatedRef.Ex.schema)).errs,
+      e.schemaPath = [.key (skey "properties"), .key (skey "x"), .key (skey "type")]
+      ∧ e.info.map (·.kwVal) = some (.str (skey "string"))
+      ∧ Spec.schemaLocatedR LocatedRef.Ex.env .d7 [([], LocatedRef.Ex.schema)] [] LocatedRef.Ex.schema [] e := by
+  have hp := LocatedRef.Ex.paths
+  have h := schema_located_refs LocatedRef.Ex.env LocatedRef.Ex.stable LocatedRef.Ex.impl .d7 none 3
+    LocatedRef.Ex.inst LocatedRef.Ex.schema LocatedRef.Ex.wf_schema [([], LocatedRef.Ex.schema)]
+    (LocatedRef.Ex.worldOK _ LocatedRef.Ex.wf_schema) none (LocatedRef.Ex.st LocatedRef.Ex.schema)
+    (Props.C15.sameWorld_iff.2 (LocatedRef.Ex.sameWorld _))
+  cases hes : (eval LocatedRef.Ex.env LocatedRef.Ex.impl (Draft.d7.cfg none) 3 LocatedRef.Ex.inst
+      LocatedRef.Ex.schema none (LocatedRef.Ex.st LocatedRef.Ex.schema)).errs with
+  | nil => rw [hes] at hp; cases hp
+  | cons e es =>
+    rw [hes] at hp h
+    simp only [List.map_cons, List.cons.injEq, Prod.mk.injEq] at hp
+    exact ⟨e, List.mem_cons_self .., hp.1.1, hp.1.2, h e (List.mem_cons_self ..)⟩
+
+/-- the walk of the example, computed: three steps and one hop -/
+example : Spec.navR LocatedRef.Ex.env .d7 [([], LocatedRef.Ex.schema)] false 4 [] LocatedRef.Ex.schema
+    [.key (skey "properties"), .key (skey "x"), .key (skey "type")] = some (.str (skey "string")) := by
+  decide +kernel
+
+/-- `schema_located_refs` read with the FIRST version of JS/Spec/LocatedRef.lean
+    (`LocatedRef.Given.navR`, kept verbatim in JS/Proofs/LocatedRef.lean): every object on the path is
+    taken for a schema, and a reference is followed also before Draft 3 `required` is read off a
+    property subschema. It is FALSE (the two counterexamples below); the specification was
+    corrected: the walk is schema-aware (`Spec.navIn`, `Spec.containerKw`), the identifier next to a
+    `$ref` key is ignored (`Spec.baseIn`), and the Draft 3 `required` exception of
+    `Spec.schemaLocatedR` reads the value off the property subschema itself. -/
+def schema_located_refs_given_statement : Prop :=
+  ∀ (env : Env) (_ : Props.C15.StableFetch env) (impl : FmtImpl) (d : Draft)
+    (fc : Option FormatChecker) (fuel : Nat) (i s : Json) (_ : Spec.WF s = true)
+    (base : List (Str × Json)) (_ : Spec.WorldOK env base)
+    (b : Option Nat) (st : RState) (_ : Props.C15.SameWorld env base st st),
+    ∀ e ∈ (eval env impl (d.cfg fc) fuel i s b st).errs,
+      LocatedRef.Given.schemaLocatedR env d base st.top s [] e
+
+/-- Draft 3, `{"properties": {"a": {"$ref": "#/definitions/x", "required": true}}, "definitions":
+    {"x": {}}}`, instance `{}`: the error's path `properties/a/required` is followed through the
+    reference to `{}`, which has no `required` (the implementation reads `required` off the property
+    subschema itself, next to the `$ref`) -/
+theorem schema_located_refs_given_counterexample : ¬ schema_located_refs_given_statement := by
+  intro h
+  exact LocatedRef.Given.refute LocatedRef.Given.paths3 LocatedRef.Given.nav3
+    (h LocatedRef.Ex.env LocatedRef.Ex.stable LocatedRef.Ex.impl .d3 none 3 (.obj [])
+      LocatedRef.Given.schema3 LocatedRef.Given.wf_schema3 [([], LocatedRef.Given.schema3)]
+      (LocatedRef.Ex.worldOK _ LocatedRef.Given.wf_schema3) none _ (Props.C15.sameWorld_iff.2 (LocatedRef.Ex.sameWorld _)))
+
+/-- Draft 7, `{"properties": {"$ref": "#/definitions/a", "x": {"type": "string"}}, "definitions":
+    {"a": {}}}` (a property NAMED `$ref`), instance `{"x": 1}`: the `properties` map is taken for a
+    reference object -/
+theorem schema_located_refs_given_counterexample_map : ¬ schema_located_refs_given_statement := by
+  intro h
+  exact LocatedRef.Given.refute LocatedRef.Given.paths7 LocatedRef.Given.nav7
+    (h LocatedRef.Ex.env LocatedRef.Ex.stable LocatedRef.Ex.impl .d7 none 3 LocatedRef.Ex.inst
+      LocatedRef.Given.schema7 LocatedRef.Given.wf_schema7 [([], LocatedRef.Given.schema7)]
+      (LocatedRef.Ex.worldOK _ LocatedRef.Given.wf_schema7) none _ (Props.C15.sameWorld_iff.2 (LocatedRef.Ex.sameWorld _)))
 
 /-- absolute paths are the parent's absolute path followed by the relative path (what
     `absolute_path` / `absolute_schema_path` compute through the parent chain) -/
